@@ -186,8 +186,10 @@ def gen_case(rng, i, tier):
         kind = "tcp-ice-between"; cfg["k"] = 1
     elif r < 0.86:
         kind = "tcp-ice-recv-messages"; cfg["k"] = 1
-    elif r < 0.92:
+    elif r < 0.90:
         kind = "tcp-multi-message"
+    elif r < 0.95:
+        kind = "tcp-raw-frames"
     else:
         kind = "tcp-foreign-connection"
     use_g = kind in ("tcp-recv-messages", "tcp-ice-recv-messages") or (kind == "tcp-bytestream" and rng.random() < 0.4)
@@ -221,6 +223,25 @@ def gen_case(rng, i, tier):
                 lay = rng.choice(BIGLAY)
                 nm = rng.choice([1, 1, 2, 3])
                 add("G%d;%s" % (1 - a, "|".join([lay] * nm)), recv=1 - a, nm=nm, lay=lay)
+    if kind == "tcp-raw-frames":
+        # hand-made frames written straight into the connection (at a frame boundary): empty frames, tiny frames, a frame
+        # whose header arrives byte by byte; between them ordinary messages
+        ops, meta_ops = [], []
+        a = rng.randrange(2)
+        for j in range(rng.randrange(2, 6)):
+            fr = []
+            for _ in range(rng.randrange(1, 4)):
+                n = rng.choice([0, 0, 1, 2, 3, 300])
+                fr.append(n.to_bytes(2, "big") + bytes((rng.randrange(64, 256) if k == 0 else rng.randrange(256)) for k in range(n)))
+            raw = b"".join(fr)
+            cutp = sorted(set(rng.randrange(1, len(raw)) for _ in range(rng.choice([0, 1, 2])))) if len(raw) > 1 else []
+            pts = [0] + cutp + [len(raw)]
+            for q in range(len(pts) - 1):
+                add("X%d;%s" % (a, raw[pts[q]:pts[q + 1]].hex()), raw=a, data=raw[pts[q]:pts[q + 1]])
+                add("P")
+            if rng.random() < 0.7:
+                m = rand_msg(rng, nxt(), big=False)
+                add("S%d;%s" % (a, m.spec()), send=a, msgs=[m]); add("P")
     if kind == "tcp-foreign-connection":
         # the documented trigger: a 10-byte message whose write stops after 7 bytes, a third party connects to the
         # receiver's passive candidate and writes a small frame, then the rest arrives
@@ -302,6 +323,9 @@ def oracle(line, out, meta):
     # walk tokens and ops in lock step: tokens do not carry op boundaries, but s/g tokens end send / recv ops
     sends = [m for m in mops if "send" in m]
     recvs = [m for m in mops if "recv" in m]
+    raws = [m for m in mops if "raw" in m]
+    xi = 0
+    rawbuf = {0: bytearray(), 1: bytearray()}
     si = gi = 0
     accepted = {0: [], 1: []}        # frames accepted by the socket layer in order: ("d", bytes) | ("i", bytes)
     wire = {0: bytearray(), 1: bytearray()}
@@ -392,11 +416,20 @@ def oracle(line, out, meta):
                 deliv[a].append(("g", v, reads_since_g[a] > 0))
             info["reads"][a].append(("g", rm["lay"], rm["nm"], ret, vals))
             reads_since_g[a] = 0
-        elif c in "xvz?":
+        elif c == "x":
+            if xi < len(raws):
+                rawbuf[raws[xi]["raw"]] += raws[xi]["data"]
+                a_ = raws[xi]["raw"]; xi += 1
+                # complete frames written so far join the stream in order
+                while len(rawbuf[a_]) >= 2 and len(rawbuf[a_]) >= 2 + int.from_bytes(rawbuf[a_][:2], "big"):
+                    n_ = 2 + int.from_bytes(rawbuf[a_][:2], "big")
+                    accepted[a_].append(("x", bytes(rawbuf[a_][:n_])))
+                    del rawbuf[a_][:n_]
+        elif c in "vz?":
             pass
     # ---- sender side: the kernel got exactly the accepted frames, in order
     for a in (0, 1):
-        exp = b"".join(x[1] for x in accepted[a])
+        exp = b"".join(x[1] for x in accepted[a] if x[0] != "x")      # raw injections bypass the interposed write
         if overread is None and bytes(wire[a]) != exp:
             if not exp.startswith(bytes(wire[a])):
                 return "agent %d: the bytes written to the TCP socket are not the frames handed to the socket layer (first difference at byte %d)" % (
@@ -408,7 +441,7 @@ def oracle(line, out, meta):
     # ---- receiver side
     for b in (0, 1):
         a = 1 - b
-        exp_data = [x[1][2:] for x in accepted[a] if x[0] == "d"]
+        exp_data = [x[1][2:] for x in accepted[a] if x[0] == "d" or (x[0] == "x" and len(x[1]) > 2)]
         ice = [x[1][2:] for x in accepted[a] if x[0] == "i"]
         got = [x[1] for x in deliv[b]]
         # a frame written into the pair's OTHER (verified) connection is a message of its own; the order between the
@@ -593,6 +626,8 @@ def stream_expr(meta, info, a):
         if kind == "d":
             m, off, ln = dataframes[di]; di += 1
             segs.append("%s ++ takeZ %d (dropZ %d (%s))" % (coq_zl(ln.to_bytes(2, "big")), ln, off, coq_bytes_expr(m)))
+        elif kind == "x":
+            segs.append(coq_zl(byts))
         else:
             segs.append(coq_zl(byts))
             ice.append(coq_zl(byts[2:]))
@@ -817,6 +852,33 @@ def run(chk):
     return chk.finish(**FINISH)
 
 
+def meta_from_line(line):
+    """rebuild the oracle's view of a case from its text"""
+    w = line.split()
+    m = re.match(r"r(\d)b(\d)k(\d)s(\d+)", w[1])
+    cfg = dict(r=int(m.group(1)), b=int(m.group(2)), k=int(m.group(3)), s=int(m.group(4)))
+    ops = []
+    for op in w[2:]:
+        d = dict(op=op)
+        arg = op.split(";", 1)[1] if ";" in op else ""
+        if op[0] == "S":
+            ms = []
+            for spec in arg.split("|"):
+                lay, g = spec.split(";")
+                nt = lay.endswith("N")
+                ms.append(Msg([int(x) for x in lay.rstrip("N").split(".")], nt, int(g[1:]), g[0]))
+            d.update(send=int(op[1]), msgs=ms)
+        elif op[0] == "G":
+            lays = arg.split("|")
+            d.update(recv=int(op[1]), nm=len(lays), lay=lays[0])
+        elif op[0] == "X":
+            d.update(raw=int(op[1]), data=bytes.fromhex(arg))
+        elif op[0] in "VZ":
+            d.update(foreign=True)
+        ops.append(d)
+    return dict(cfg=cfg, ops=ops, kind="replay", use_g=any(o["op"][0] == "C" and o["op"].endswith(";0") for o in ops))
+
+
 def replay(chk, path):
     """re-run the recorded case on the current tree"""
     d = json.load(open(path))
@@ -830,6 +892,11 @@ def replay(chk, path):
     impl, o = build_impl(rp.get("kind") == "ubsan-alignment")
     if not impl:
         print(o); return 1
-    rc, so, se = vlib.run_lines(impl, case + "\n")
-    print(so[:6000]); print(se[-3000:])
-    return 0 if rc == 0 else 1
+    rc, so, se = vlib.run_lines(impl, case + "\n", timeout=60)
+    print(re.sub(r"[0-9a-f]{200,}", lambda m_: m_.group(0)[:40] + "...(%d hex digits)" % len(m_.group(0)), so)[:6000]); print(se[-3000:])
+    if rc != 0:
+        print("REPLAY: the implementation crashed / sanitizer report / hang (rc=%d)" % rc)
+        return 1
+    why, trigger, _ = oracle(case, so.strip("\n"), meta_from_line(case))
+    print("REPLAY: oracle says:", why or "property holds on this case", "(trigger: %s)" % trigger if trigger else "")
+    return 1 if why else 0
